@@ -894,6 +894,66 @@ func vfC16ParkedWrite(res *vfResult, iter int) {
 	p.Close()
 }
 
+// vfC16CloseRace: the peer closes; this side's read loop answers with close_notify, and that datagram is still
+// being written (socket slow for a moment) when the application calls Close here as well. One close_notify may
+// leave this endpoint. Real time, for the same reason as vfC16ParkedWrite.
+func vfC16CloseRace(res *vfResult, iter int) {
+	variants := []string{"12-ecdsa", "12-cid", "13", "13-cid", "12-psk-cbc"}
+	cfg := vfC16Cfg(variants[iter%len(variants)])
+	co, so := cfg.Options(nil, nil)
+	n := vfNewNet()
+	p, err := vfNewPair(n, co, so)
+	res.Eval(1)
+	if err != nil {
+		return
+	}
+	if ce, se := p.Handshake(20 * time.Second); ce != nil || se != nil {
+		p.Close()
+
+		return
+	}
+	x, y := p.C, p.S
+	if iter%2 == 1 {
+		x, y = p.S, p.C
+	}
+	time.Sleep(50 * time.Millisecond)
+	tk, terr := vfNewToolkit(p)
+	if terr != nil {
+		p.Close()
+
+		return
+	}
+	cidY := vfCIDLenOf(y.Conn)
+	mark := n.LogLen()
+	blk := make(chan struct{})
+	x.EP.mu.Lock()
+	x.EP.blockWrites = blk
+	x.EP.mu.Unlock()
+	done := make(chan struct{}, 2)
+	go func() { _ = y.Conn.Close(); done <- struct{}{} }()
+	time.Sleep(80 * time.Millisecond) // X's read loop has the peer's close_notify and its answer is parked in the socket
+	go func() { _ = x.Conn.Close(); done <- struct{}{} }()
+	time.Sleep(80 * time.Millisecond)
+	close(blk)
+	for i := 0; i < 2; i++ {
+		select {
+		case <-done:
+		case <-time.After(20 * time.Second):
+			res.Violate("C16:close-did-not-return:close-race", "Close did not return within 20 s; "+cfg.FP(), map[string]any{"iter": iter, "race": true})
+		}
+	}
+	time.Sleep(50 * time.Millisecond)
+	cn, _, _, opaque := vfCountAlerts(n, tk, x.Name, mark, cidY)
+	res.Count("close_races_checked", 1)
+	res.Count("close_race_undecodable_records", int64(opaque))
+	if cn > 1 {
+		res.Violate("C16:close-notify-sent-twice:close-racing-reply", fmt.Sprintf("%d close_notify alerts left the endpoint whose application closed while its read loop was answering the peer's close_notify; %s", cn, cfg.FP()),
+			map[string]any{"iter": iter, "race": true})
+	}
+	res.NonTrivial(fmt.Sprintf("closerace/%d", iter))
+	p.Close()
+}
+
 func TestVF_C16(t *testing.T) {
 	vfGetPKI()
 	res := vfNewResult("C16", "Close (1-3 concurrent callers, repeated, with a Write parked in the socket), forged fatal alerts and close_notify, "+
@@ -909,11 +969,14 @@ func TestVF_C16(t *testing.T) {
 				Case   vfC16Case `json:"case"`
 				Iter   *int      `json:"iter"`
 				Parked bool      `json:"parked"`
+				Race   bool      `json:"race"`
 			} `json:"replay"`
 		}
 		vfLoadReplay(t, &rf)
 		vfDumpWire = true
-		if rf.Replay.Iter != nil && rf.Replay.Parked {
+		if rf.Replay.Iter != nil && rf.Replay.Race {
+			vfC16CloseRace(res, *rf.Replay.Iter)
+		} else if rf.Replay.Iter != nil && rf.Replay.Parked {
 			vfC16ParkedWrite(res, *rf.Replay.Iter)
 		} else if rf.Replay.Iter != nil {
 			vfC16Stress(res, *rf.Replay.Iter)
@@ -929,6 +992,7 @@ func TestVF_C16(t *testing.T) {
 	cases := vfC16Cases()
 	vfBubbles(t, len(cases), func(t *testing.T, i int) { vfC16Run(t, res, cases[i]) })
 	vfParallel(vfPick(10, 100), func(_, i int) { vfC16ParkedWrite(res, i) })
+	vfParallel(vfPick(20, 200), func(_, i int) { vfC16CloseRace(res, i) })
 	ns := vfPick(150, 3000)
 	vfParallel(ns, func(_, i int) { vfC16Stress(res, i) })
 	res.Sample(map[string]any{"placements": len(cases), "stress_iterations": ns, "x_read_results": res.SetSize("x_read_results")})
@@ -937,6 +1001,7 @@ func TestVF_C16(t *testing.T) {
 	res.Floor("alerts_decoded", 20)
 	res.Floor("stress_iterations", int64(ns*8/10))
 	res.Floor("parked_writes_checked", 8)
+	res.Floor("close_races_checked", 15)
 	res.Finish(t)
 }
 
